@@ -136,8 +136,14 @@ def classify(diags, meta, gen_lines, unit):
             if not s.get('is_primary'):
                 at = s['line_start']
         where = src if src else (meta['line_table'].get(str(at)) if at else None)
-        name = '%s/%s/%s@%s' % (unit, fn, kind,
-                                ('L%d' % where[1]) if where else ('gen%d' % gl))
+        sl = meta.get('spec_table', {}).get(str(gl))
+        if where:
+            at_s = 'L%d' % where[1]
+        elif sl:
+            at_s = '%s:%d' % (meta.get('contract_file', 'spec'), sl)
+        else:
+            at_s = 'gen%d' % gl
+        name = '%s/%s/%s@%s' % (unit, fn, kind, at_s)
         failures.append({'obligation': name, 'fn': fn, 'kind': kind, 'message': msg, 'gen_line': gl,
                          'clause': text, 'src': where,
                          'rendered': d.get('rendered', '')[:2000]})
